@@ -579,6 +579,30 @@ def rule_order(ctx, px, ts):
          "set(self.get_supported_language_names()) - set((_.name,))"):
             "registration order of languages; each language registers names under its own ln.<name>. prefix (disjoint keys)",
     }
+    # the include list: either the caller sorts the whole list (then the order in which a language hands back its includes is erased),
+    # or it sorts its own part and relies on the language's order (then that order must not come from a hash-ordered iteration)
+    g_inc = px.func("nunavut.lang._common", "IncludeGenerator.generate_include_filepart_list")
+
+    def _sorted_exprs(fn):
+        out_ = []
+        for st_, gd_ in pyfront.walk_guarded(fn.node.body):
+            if isinstance(st_, ast.Return) and st_.value is not None:
+                v_ = st_.value
+                if isinstance(v_, ast.IfExp):
+                    t_, a_, b_ = v_.test, v_.body, v_.orelse
+                    if isinstance(t_, ast.UnaryOp) and isinstance(t_.op, ast.Not):
+                        t_, a_, b_ = t_.operand, b_, a_
+                    if ast.unparse(t_) == "sort":
+                        v_ = a_
+                    else:
+                        continue
+                elif ("sort", True) not in pyfront.guard_terms(gd_):
+                    continue
+                out_.append(pyfront.subst_locals(fn.node, v_))
+        return out_
+    inc_rets = _sorted_exprs(g_inc)
+    sorted_all = bool(inc_rets) and all(isinstance(v_, ast.Call) and effects.dotted(v_.func) == "sorted" and v_.args and "get_includes(" in ast.unparse(v_.args[0]) for v_ in inc_rets)
+    lang_unordered = []      # hash-ordered iterations inside a language's get_includes that reach its result unsorted
     n = 0
     for f in px.all_funcs:
         if f.outer is not None:
@@ -621,6 +645,12 @@ def rule_order(ctx, px, ts):
                 elif _tree_walk_recursion(f, node):
                     ctx.ob(R, f.module.rel, construct, True, "recursion of a tree-walk generator (the loop body only yields from the generator's own call on the "
                            "nested namespace): processing order of files only; per-file content is order independent (R-C10)", node.lineno)
+                elif f.name == "get_includes" and f.cls is not None:
+                    lang_unordered.append((f, node))
+                    ctx.ob(R, f.module.rel, construct, sorted_all,
+                           "the only caller sorts the whole include list" if sorted_all else
+                           "the include generator does not sort what the language hands back, and this iteration follows the hash order of a set: "
+                           "the order of #include lines changes with PYTHONHASHSEED", node.lineno)
                 elif key in ACCEPT:
                     okj, whyj = True, ACCEPT[key]
                     if key[0] == "LanguageContextBuilder._new_language_map":
@@ -633,23 +663,37 @@ def rule_order(ctx, px, ts):
     ctx.floor(R, n, 6)
 
     # 2. include list: the sort parameter defaults to True everywhere and no built-in template switches it off
-    g = px.func("nunavut.lang._common", "IncludeGenerator.generate_include_filepart_list")
-    rets = [r for r in ast.walk(g.node) if isinstance(r, ast.Return)]
-    sorted_ret = False
-    for st, gd in pyfront.walk_guarded(g.node.body):
-        if isinstance(st, ast.Return) and isinstance(st.value, ast.Call) and effects.dotted(st.value.func) == "sorted":
-            if ("sort", True) in pyfront.guard_terms(gd):
-                sorted_ret = True
-        # `return sorted(x) if sort else x`
-        if isinstance(st, ast.Return) and isinstance(st.value, ast.IfExp):
-            ie = st.value
-            t_, a_, b_ = ie.test, ie.body, ie.orelse
-            if isinstance(t_, ast.UnaryOp) and isinstance(t_.op, ast.Not):
-                t_, a_, b_ = t_.operand, b_, a_
-            if ast.unparse(t_) == "sort" and isinstance(a_, ast.Call) and effects.dotted(a_.func) == "sorted":
-                sorted_ret = True
+    g = g_inc
+    own_sorted = sorted_all
+    if not own_sorted:
+        # the generated paths are sorted on their own (sorted(paths) + ..., or paths.sort() before the return) and the language's includes
+        # follow in the order the language gives them
+        def part_sorted(v_):
+            parts_ = []
+
+            def flat(e_):
+                if isinstance(e_, ast.BinOp) and isinstance(e_.op, ast.Add):
+                    flat(e_.left)
+                    flat(e_.right)
+                else:
+                    parts_.append(e_)
+            flat(v_)
+            ok_ = True
+            for e_ in parts_:
+                if "get_includes(" in ast.unparse(e_):
+                    continue
+                if isinstance(e_, ast.Call) and effects.dotted(e_.func) == "sorted":
+                    continue
+                if isinstance(e_, ast.Name) and any(isinstance(c_, ast.Call) and isinstance(c_.func, ast.Attribute) and c_.func.attr == "sort" and isinstance(c_.func.value, ast.Name)
+                                                    and c_.func.value.id == e_.id for c_ in ast.walk(g.node)):
+                    continue
+                ok_ = False
+            return ok_ and bool(parts_)
+        raw_rets = [st_.value for st_, gd_ in pyfront.walk_guarded(g.node.body) if isinstance(st_, ast.Return) and st_.value is not None and ("sort", False) not in pyfront.guard_terms(gd_)]
+        own_sorted = bool(raw_rets) and all(part_sorted(v_) for v_ in raw_rets) and not lang_unordered
+    sorted_ret = own_sorted
     ctx.ob(R, g.module.rel, f"{g.short} returns sorted(...) under `sort`", sorted_ret,
-           "" if sorted_ret else "the sorted return under `if sort` vanished", g.node.lineno)
+           "" if sorted_ret else "under `sort` the list is neither sorted as a whole nor made of a sorted part plus the language's includes in a fixed order", g.node.lineno)
     nflt = 0
     for f in px.all_funcs:
         if f.name in ("filter_includes", "filter_imports") and f.outer is None:
